@@ -180,7 +180,9 @@ V2Ops(d) ==
 
 \* features of the design the writers / validators are sensitive to
 AllMeths(d) == UNION {{<<s, m>> : m \in RangeQ(s.meths)} : s \in RangeQ(d.svcs)}
-HasParamXB(d) == \E sm \in AllMeths(d) : \E x \in RangeQ(sm[2].params) : x.xb
+\* (parameter objects exist only inside the operations the builder emits: a method whose every route is dropped
+\* from the 3.0 document contributes none; body schemas are collected per endpoint whatever its routes)
+HasParamXB(d) == \E sm \in AllMeths(d) : (\E r \in RangeQ(sm[2].routes) : V3Switch(r.verb)) /\ \E x \in RangeQ(sm[2].params) : x.xb
 HasBodyXB(d) == \E sm \in AllMeths(d) : sm[2].bxb /\ sm[2].body \in {"req", "opt"}
 HasDir(d) == \E s \in RangeQ(d.svcs) : \E f \in RangeQ(s.files) : f.dir
 HasFiles(d) == \E s \in RangeQ(d.svcs) : s.files # <<>>
